@@ -237,15 +237,22 @@ fn encode_block(
     if let Some(encoder) = block_content_encoder_map.get_data_series_encoder(block_content_id) {
         match encoder {
             Some(Encoder::Fqzcomp) => {
-                if all_quality_scores_stored_as_arrays {
-                    let lens: Vec<_> = records.iter().map(|r| r.read_length).collect();
+                let lens: Vec<_> = records.iter().map(|r| r.read_length).collect();
+
+                // The quality scores series also holds the scores of read base features, and
+                // records without quality scores or bases contribute nothing to it: fqzcomp can
+                // only be used when the series is exactly one array per record.
+                let is_record_aligned = lens.iter().all(|&len| len > 0)
+                    && lens.iter().sum::<usize>() == src.len();
+
+                if all_quality_scores_stored_as_arrays && is_record_aligned {
                     let data = fqzcomp::encode(&lens, src)?;
 
                     Ok(Block {
                         compression_method: CompressionMethod::Fqzcomp,
                         content_type,
                         content_id: block_content_id,
-                        uncompressed_size: data.len(),
+                        uncompressed_size: src.len(),
                         src: data,
                     })
                 } else {
